@@ -16,6 +16,7 @@ RULE = ('program sets = 2-4 per-thread programs (<= 8 events each) built from ke
         'per-thread traces and learned names were compared with the baseline; distinct = distinct merged sequences')
 QUICK_SHARDS = 8
 THOROUGH_SHARDS = 16
+THOROUGH_TIMEOUT = 5400      # (24 min alone on 16 cores; the margin is for a loaded machine - a watchdog firing is INCONCLUSIVE, never a verdict)
 MAX_ALL = 3000
 
 
